@@ -162,8 +162,8 @@ class Ctx:
             raise Inconclusive("TLC timeout after %ds: %s %s" % (timeout, module, cfg))
         res.wall = time.time() - t
         _parse_tlc(p.stdout, res)
-        if mode == "simulate" and not res.violated and not res.error:
-            res.ok = True
+        if mode == "simulate" and not res.violated and "Finished in" in p.stdout and "Error:" not in p.stdout:
+            res.ok, res.error = True, None
         if coverage:
             res.coverage_zero = re.findall(r"<(\w+) line \d+, col \d+ to line \d+, col \d+ of module \w+>: 0:0", p.stdout)
         if res.error and not res.violated:
@@ -202,6 +202,8 @@ class Ctx:
         kw.setdefault("workers", 1)
         kw.setdefault("count", False)
         r = self.tlc(module, cfg, **kw)
+        if kw.get("mode") == "simulate":
+            r.violated = None
         if r.violated:
             raise Inconclusive("generator %s/%s violated %s" % (module, cfg, r.violated))
         out = []
